@@ -51,6 +51,8 @@ AnalyseCase(ev) ==
        wc |-> [i \in 1..Len(pts) |-> Wind(EC, pts[i])],
        clearT |-> [i \in 1..Len(pts) |-> ClearOf(EA, pts[i], t)],
        clearR |-> [i \in 1..Len(pts) |-> ~OnAny(EA, pts[i])],
+       sp2 |-> (\A x \in XsOf(In) : \A y \in XsOf(In) : x = y \/ x - y >= 2 \/ y - x >= 2)
+               /\ (\A x \in YsOf(In) : \A y \in YsOf(In) : x = y \/ x - y >= 2 \/ y - x >= 2),
        allcells |-> (ps = 2 /\ rect /\ cells \subseteq {pts[i] : i \in 1..Len(pts)}),
        ncell |-> Cardinality(cells) ]
 
@@ -83,38 +85,48 @@ TOut == /\ Ev.e = "Out"
         /\ UNCHANGED cs
         /\ Chk(outs'[Ev.k].xcheck, "HARNESS", "projection_crosscheck", Ev.k)
 
-InBB(o) == o.n = 0 \/ (o.bb[1] >= cs.bb[1] /\ o.bb[2] >= cs.bb[2] /\ o.bb[3] <= cs.bb[3] /\ o.bb[4] <= cs.bb[4])
+InBB(o) == o.n = 0 \/ cs.emb = 4 \/      \* the bounding-box clause is stated for coordinates up to 2^52 (embedding 4 is 2^61)
+            (o.bb[1] >= cs.bb[1] /\ o.bb[2] >= cs.bb[2] /\ o.bb[3] <= cs.bb[3] /\ o.bb[4] <= cs.bb[4])
 
 BadPts(o, ct, fr, rs, clear) == {i \in 1..Len(cs.pts) : clear[i] /\ o.cover[i] # Expected(ct, fr, rs, cs.ws[i], cs.wc[i])}
 NSel(ct, fr) == Cardinality({i \in 1..Len(cs.pts) : InResult(ct, fr, cs.ws[i], cs.wc[i])})
 
+(* postcondition of one Execute(ct, fr) with options pc, rs that returned success flag ok and solution outs[k] *)
+ExecPost(ct, fr, pc, rs, ok, k) ==
+  LET o == outs[k]
+      geo == (cs.gp \/ cs.rect) /\ o.lat
+  IN /\ Chk(ok = 1, "C11", "execute_returned_false", k)
+     /\ Chk(ct # 0 \/ o.n = 0, "C11", "noclip_not_empty", k)
+     \* ---- C03 structural: every input
+     /\ Chk(o.minlen >= 3 /\ o.dups = 0 /\ o.struct, "C03", "struct", k)
+     /\ Chk(InBB(o), "C03", "bbox", k)
+     \* ---- C01: general position, tolerance band
+     /\ (cs.gp => LET bad == BadPts(o, ct, fr, rs, cs.clearT)
+                  IN Chk(bad = {}, "C01", "cover", IF bad = {} THEN 0 ELSE CHOOSE i \in bad : TRUE))
+     \* ---- C02: rectilinear, exact
+     /\ (cs.rect => LET bad == BadPts(o, ct, fr, rs, cs.clearR)
+                    IN /\ Chk(bad = {}, "C02", "cells", IF bad = {} THEN 0 ELSE CHOOSE i \in bad : TRUE)
+                       /\ Chk(o.lat, "C02", "vertex_off_lattice", k)
+                       /\ Chk(~o.offxy, "C02", "vertex_xy_not_from_input", k)
+                       /\ ((cs.allcells /\ o.lat) =>
+                             Chk(o.area2 = (IF rs = 1 THEN -2 ELSE 2) * NSel(ct, fr), "C02", "area", k)))
+     \* ---- C03 geometric: general position or rectilinear
+     /\ (geo => /\ Chk(~o.zero, "C03", "zero_area", k)
+                /\ Chk(~o.spike, "C03", "spike", k)
+                /\ Chk(~o.cross, "C03", "proper_crossing", k)
+                /\ Chk(IF rs = 1 THEN o.or1 ELSE o.or0, "C03", "orientation_vs_nesting", k)
+                /\ Chk(pc = 1 \/ ~o.coll, "C03", "collinear", k)
+                /\ Chk(o.far = {}, "C03", "vertex_far_from_input", k))
+
 TExec ==
   /\ Ev.e = "Exec"
   /\ UNCHANGED <<cs, outs>>
-  /\ LET o == outs[Ev.k]  ct == Ev.ct  fr == Ev.fr  rs == Ev.rs  pc == Ev.pc
-         geo == (cs.gp \/ cs.rect) /\ o.lat
-     IN /\ Chk(Ev.ok = 1, "C11", "execute_returned_false", Ev.k)
-        /\ Chk(ct # 0 \/ o.n = 0, "C11", "noclip_not_empty", Ev.k)
-        \* ---- C03 structural: every input
-        /\ Chk(o.minlen >= 3 /\ o.dups = 0 /\ o.struct, "C03", "struct", Ev.k)
-        /\ Chk(InBB(o), "C03", "bbox", Ev.k)
-        \* ---- C01: general position, tolerance band
-        /\ (cs.gp => LET bad == BadPts(o, ct, fr, rs, cs.clearT)
-                     IN Chk(bad = {}, "C01", "cover", IF bad = {} THEN 0 ELSE CHOOSE i \in bad : TRUE))
-        \* ---- C02: rectilinear, exact
-        /\ (cs.rect => LET bad == BadPts(o, ct, fr, rs, cs.clearR)
-                       IN /\ Chk(bad = {}, "C02", "cells", IF bad = {} THEN 0 ELSE CHOOSE i \in bad : TRUE)
-                          /\ Chk(o.lat, "C02", "vertex_off_lattice", Ev.k)
-                          /\ Chk(~o.offxy, "C02", "vertex_xy_not_from_input", Ev.k)
-                          /\ (cs.allcells /\ o.lat) =>
-                                Chk(o.area2 = (IF rs = 1 THEN -2 ELSE 2) * NSel(ct, fr), "C02", "area", Ev.k))
-        \* ---- C03 geometric: general position or rectilinear
-        /\ geo => /\ Chk(~o.zero, "C03", "zero_area", Ev.k)
-                  /\ Chk(~o.spike, "C03", "spike", Ev.k)
-                  /\ Chk(~o.cross, "C03", "proper_crossing", Ev.k)
-                  /\ Chk(IF rs = 1 THEN o.or1 ELSE o.or0, "C03", "orientation_vs_nesting", Ev.k)
-                  /\ Chk(pc = 1 \/ ~o.coll, "C03", "collinear", Ev.k)
-                  /\ Chk(o.far = {}, "C03", "vertex_far_from_input", Ev.k)
+  /\ ExecPost(Ev.ct, Ev.fr, Ev.pc, Ev.rs, Ev.ok, Ev.k)
+(* batched form: x is a list of <<ct, fr, pc, rs, tree, ok, k>> *)
+TExecs ==
+  /\ Ev.e = "Execs"
+  /\ UNCHANGED <<cs, outs>>
+  /\ \A i \in 1..Len(Ev.x) : LET x == Ev.x[i] IN ExecPost(x[1], x[2], x[3], x[4], x[6], x[7])
 
 TReUnion ==
   /\ Ev.e = "ReUnion"
@@ -133,7 +145,7 @@ TTree ==
   /\ LET a == outs[Ev.k]  nodes == Ev.nodes  par == Ev.par  rs == Ev.rs
          N == Len(nodes)
          lvl[i \in 1..N] == IF par[i] = 0 THEN 1 ELSE 1 + lvl[par[i]]
-         judge == (cs.gp \/ cs.rect) /\ a.lat
+         judge == (cs.gp \/ (cs.rect /\ cs.sp2)) /\ a.lat
      IN /\ Chk(Ev.ok = 1, "C11", "execute_returned_false", Ev.k)
         /\ a.lat => Chk(SameRings(a.paths, nodes), "C04", "tree_paths_differ", Ev.k)
         /\ Chk(Ev.openeq = 1, "C04", "open_paths_differ", Ev.k)
@@ -152,7 +164,7 @@ TTree ==
 Init == l = 1 /\ cs = <<>> /\ outs = <<>>
 Next == /\ l <= Len(Tr)
         /\ l' = l + 1
-        /\ (TCase \/ TOut \/ TExec \/ TReUnion \/ TTree)
+        /\ (TCase \/ TOut \/ TExec \/ TExecs \/ TReUnion \/ TTree)
 Spec == Init /\ [][Next]_vars
 Accepted == TLCGet("stats").diameter = Len(Tr) + 1
 =============================================================================
